@@ -530,6 +530,8 @@ func (rngdata *RangeNamespaceData) ReadFrom(reader io.Reader) (int64, error) {
 		return n, fmt.Errorf("failed to read data: %w", err)
 	}
 
+	// the receiver may hold a previous response, do not keep its proofs
+	rngdata.FirstIncompleteRowProof, rngdata.LastIncompleteRowProof = nil, nil
 	rngdata.Shares = make([][]libshare.Share, len(nd))
 	for i, row := range nd {
 		rngdata.Shares[i] = row.Shares
